@@ -20,13 +20,13 @@ Definition is_tchar (c : byte) : bool :=
   is_digit c || is_lower c || is_upper c ||
   existsb (N.eqb c) [33; 35; 36; 37; 38; 39; 42; 43; 45; 46; 94; 95; 96; 124; 126].
 
+Definition cstep (upper : bool) (c : byte) : byte :=
+  if upper && is_lower c then c - 32
+  else if negb upper && is_upper c then c + 32 else c.
 Fixpoint canon_loop (upper : bool) (s : bytes) : bytes :=
   match s with
   | [] => []
-  | c :: t =>
-      let c' := if upper && is_lower c then c - 32
-                else if negb upper && is_upper c then c + 32 else c in
-      c' :: canon_loop (c' =? 45) t
+  | c :: t => let c' := cstep upper c in c' :: canon_loop (c' =? 45) t
   end.
 (* textproto.CanonicalMIMEHeaderKey: names with a byte outside tchar are returned unchanged *)
 Definition canonical_mime (s : bytes) : bytes :=
